@@ -29,8 +29,8 @@ Definition rt_lt := op_lt I64.
 Definition rt_le := op_le I64.
 Definition rt_eq := op_eq I64.
 Definition rt_ne := op_ne I64.
-Definition rt_idiv (nochecks : bool) := emit_idiv base_mode I64 true nochecks.
-Definition rt_imod (nochecks : bool) := emit_imod base_mode I64 true nochecks.
+Definition rt_idiv (nochecks : bool) := emit_idiv idiv_guard_first base_mode I64 true nochecks.
+Definition rt_imod (nochecks : bool) := emit_imod imod_guard_first base_mode I64 true nochecks.
 Definition rt_shl (cnt_comptime : bool) := emit_shl base_mode I64 cnt_comptime.
 Definition rt_shr (cnt_comptime : bool) := emit_shr base_mode I64 cnt_comptime.
 
